@@ -310,28 +310,35 @@ def limits_and_unsupported(chk: Check, tier: str):
 
 
 def setup_loop(chk: Check, tier: str):
-    """setUp() loops a symbolic number of times (svm.createUint256) and only continues for i == 3."""
+    """setUp() loops a symbolic number of times (svm.createUint256) and continues for i == 1 or i == 4 only; the test that
+    follows fails in the state i == 4, which lies beyond --loop 2: the PASS on the surviving state (i == 1) needs the warning.
+    Second variant: only i == 3 continues - no setUp path survives the bound."""
     from harness.artifacts import SVM, cheat_call
 
     L = 2
-    name_arg = [("PUSH", 0x20)]  # string offset; the string itself is left empty
-    setup = cheat_call(SVM, "createUint256(string)", [name_arg, [("PUSH", 0)]], ret_words=1, mem=0x200)
-    # n = mem[0x300]; i = 0; while (i < n) i++; require(i == 3); sstore(0, i)
-    setup += [("PUSH", 0), ("LABEL", "h"), ("PUSH", 0x300), "MLOAD", "DUP2", "LT", ("PUSHL", "b"), "JUMPI",
-              "DUP1", ("PUSH", 3), "EQ", ("PUSHL", "ok"), "JUMPI", ("PUSH", 0), ("PUSH", 0), "REVERT",
-              ("LABEL", "b"), ("PUSH", 1), "ADD", ("PUSHL", "h"), "JUMP", ("LABEL", "ok"), ("PUSH", 0), "SSTORE", "STOP"]
-    test = [("PUSH", 0), "SLOAD", ("PUSH", 3), "EQ", ("PUSHL", "fine"), "JUMPI"] + panic(1) + [("LABEL", "fine"), "STOP"]
-    c = Contract("SetupLoopT", [Fn("setUp()", setup, devdoc=f"--loop {L}"), Fn("check_after_setup()", test)])
-    out = run_contract(c)
-    res = out.by_sig()
-    chk.count("traces_validated_against_impl")
-    chk.nontrivial(("setup-loop",))
-    r = res.get("check_after_setup()")
-    # with --loop 2 the only successful setUp path (n == 3) is beyond the bound: either setUp fails
-    # (no test result) or a loop-bound warning for setUp must be present
-    if r is not None and r.exitcode == 0 and not flagged(out, "setUp"):
-        chk.violation("setup-loop:unreported", "setUp() was cut by the loop bound but the test that follows is a clean PASS without a warning", {"halmos_output": (out.stdout + out.logs)[-1500:]})
-    chk.sample({"setup_loop": {"result": None if r is None else r.exitcode, "flagged": flagged(out, "setUp")}})
+    for variant, goods, bad in (("partial", (1, 4), 4), ("none", (3,), 3)):
+        name_arg = [("PUSH", 0x20)]  # string offset; the string itself is left empty
+        setup = cheat_call(SVM, "createUint256(string)", [name_arg, [("PUSH", 0)]], ret_words=1, mem=0x200)
+        # n = mem[0x300]; i = 0; while (i < n) i++; require(i in goods); sstore(0, i)
+        setup += [("PUSH", 0), ("LABEL", "h"), ("PUSH", 0x300), "MLOAD", "DUP2", "LT", ("PUSHL", "b"), "JUMPI"]
+        for gval in goods:
+            setup += ["DUP1", ("PUSH", gval), "EQ", ("PUSHL", "ok"), "JUMPI"]
+        setup += [("PUSH", 0), ("PUSH", 0), "REVERT", ("LABEL", "b"), ("PUSH", 1), "ADD", ("PUSHL", "h"), "JUMP", ("LABEL", "ok"), ("PUSH", 0), "SSTORE", "STOP"]
+        test = [("PUSH", 0), "SLOAD", ("PUSH", bad), "EQ", "ISZERO", ("PUSHL", "fine"), "JUMPI"] + panic(1) + [("LABEL", "fine"), "STOP"]
+        c = Contract("SetupLoopT" + variant, [Fn("setUp()", setup, devdoc=f"--loop {L}"), Fn("check_after_setup()", test)])
+        out = run_contract(c)
+        res = out.by_sig()
+        chk.count("traces_validated_against_impl")
+        chk.nontrivial(("setup-loop", variant))
+        r = res.get("check_after_setup()")
+        # the setUp state in which the test fails is beyond the bound: either setUp fails as a whole (no test result), or the
+        # test is not a clean PASS, or a loop-bound warning for setUp is present
+        if r is not None and r.exitcode == 0 and not flagged(out, "setUp"):
+            chk.violation(f"setup-loop:unreported:{variant}", f"setUp() was cut by the loop bound (states i in {goods} continue, --loop {L}) but the test that follows, which fails in the state i == {bad}, "
+                          "is a clean PASS without a warning", {"halmos_output": (out.stdout + out.logs)[-1500:]})
+        if variant == "partial" and r is None:
+            raise MachineryError(f"setUp with a surviving path produced no test result: {out.stdout[-400:]} {out.exception}")
+        chk.sample({"setup_loop": {"variant": variant, "result": None if r is None else r.exitcode, "flagged": flagged(out, "setUp")}})
 
 
 def invariant_target_loop(chk: Check, tier: str, work):
